@@ -9,7 +9,8 @@ stdin : {"cases": [ {"verts": [[x,y,z],..], "faces": [[a,b,c],..], "mode": "circ
                              after the other on ONE mesh object; obs = {"status":"seq","steps":[obs,..]}) }, ...]}
 stdout: '@@JSON ' + {"obs": [ obs, ... ]}
 
-obs = {"status": "ok" | "rejected" | "error:<text>",
+obs = {"status": "ok" | "rejected" (the constructor or run() raised; "exception" = class: message, informative only)
+                 | "error:<text>" (the driver itself failed),
        "nv","ne","nf"            : sizes mouette reports (len(mesh.vertices/edges/faces)),
        "free","bnd"              : the index lists the implementation partitions with (public attributes /
                                    extract_border_cycle, exactly as tutte.run chooses them),
@@ -107,8 +108,7 @@ def one_run(case, corners, mesh=None):
     try:
         t = TutteEmbedding(mesh, *args, **kw2)
         if invoke == "call":
-            if t() is not t:
-                raise RuntimeError("TutteEmbedding(...)() did not return the worker")
+            t()                      # what the call returns is not constrained
         elif invoke == "twice":
             t.run()
             t.run()
@@ -120,7 +120,10 @@ def one_run(case, corners, mesh=None):
             t.run()
     except Exception as ex:  # the gate raises a bare Exception
         msg = str(ex)
-        out["status"] = "rejected" if "not a topological disk" in msg else "error:%s: %s" % (type(ex).__name__, msg[:200])
+        # ANY exception raised by the constructor / run() is a refusal; whether it is legitimate is decided from the
+        # input by the oracle (class and message are recorded for information only)
+        out["status"] = "rejected"
+        out["exception"] = "%s: %s" % (type(ex).__name__, msg[:200])
         return out
     out["status"] = "ok"
     out["free"] = [int(v) for v in mesh.interior_vertices]
@@ -173,12 +176,8 @@ def run_sequence(case):
                 from mouette.processing.parametrization import TutteEmbedding
                 try:
                     TutteEmbedding(mesh, "triangle")
-                    steps.append({"status": "error:boundary_mode 'triangle' was accepted"})
-                    continue
-                except Exception as ex:
-                    if type(ex).__name__ != "InvalidArgumentValueError":
-                        steps.append({"status": "error:boundary_mode 'triangle' raised %s" % type(ex).__name__})
-                        continue
+                except Exception:
+                    pass             # (whether an unknown mode name is refused, and how, is not constrained)
             steps.append(run_case(view, mesh))
         except Exception as ex:
             steps.append({"status": "error:driver %s: %s" % (type(ex).__name__, str(ex)[:300])})
@@ -194,10 +193,12 @@ def run_case(case, mesh=None):
     except Exception as ex:
         return {"status": "error:driver %s: %s" % (type(ex).__name__, str(ex)[:300]), "trace": traceback.format_exc()[-600:]}
     if a["status"] != b["status"]:
-        return {"status": "error:storages disagree on status: vertex=%s corner=%s" % (a["status"], b["status"]),
+        return {"status": "rejected", "exception": "only one storage answered: per-vertex %s %s, per-corner %s %s"
+                          % (a["status"], a.get("exception", ""), b["status"], b.get("exception", "")),
                 "nv": a.get("nv"), "ne": a.get("ne"), "nf": a.get("nf")}
     o = {"status": a["status"], "nv": a["nv"], "ne": a["ne"], "nf": a["nf"]}
     if a["status"] != "ok":
+        o["exception"] = a.get("exception")
         return o
     if a["free"] != b["free"] or a["bnd"] != b["bnd"]:
         return {"status": "error:storages partition differently", "nv": a["nv"], "ne": a["ne"], "nf": a["nf"]}
